@@ -61,6 +61,7 @@ static std::string do_readfile(std::istringstream& is) {
             std::string cn = class_of(o); const ClassReflect* c = find_class(cn);
             objs += " | " + cn + " " + (c ? dump_obj(c, o) : std::string("?"));
             delete o; n++;
+            if (n > 200000) { _exit(77); }   // unbounded object stream: reported as hang by the parent
         }
         bool good = f.good(), eof = f.eof();
         f.close();
@@ -134,7 +135,7 @@ int main() {
         close(fd[0]); int st = 0; waitpid(p, &st, 0);
         std::string cmd = line.substr(0, line.find(' '));
         if (WIFEXITED(st) && WEXITSTATUS(st) == 0 && !r.empty()) std::cout << r;
-        else if (WIFSIGNALED(st) && WTERMSIG(st) == SIGALRM) std::cout << cmd << " outcome=hang\n";
+        else if ((WIFSIGNALED(st) && WTERMSIG(st) == SIGALRM) || (WIFEXITED(st) && WEXITSTATUS(st) == 77)) std::cout << cmd << " outcome=hang\n";
         else std::cout << cmd << " outcome=crash status=" << (WIFSIGNALED(st) ? 1000 + WTERMSIG(st) : WEXITSTATUS(st)) << "\n";
         std::cout.flush();
     }
